@@ -326,9 +326,34 @@ func (vc *FuncVC) call(b *ssa.BasicBlock, idx int, ins ssa.Instruction, c *ssa.C
 	}
 	var cbMods []modLoc
 	if cbClosure != nil {
-		for _, bnd := range cbClosure.Bindings {
+		for bi, bnd := range cbClosure.Bindings {
 			if _, ok := under(bnd.Type()).(*types.Pointer); ok {
+				// a captured variable the closure only reads keeps its value
+				if fnv, ok := cbClosure.Fn.(*ssa.Function); ok && bi < len(fnv.FreeVars) && readOnlyCapture(fnv.FreeVars[bi], 0) {
+					continue
+				}
 				cbMods = append(cbMods, modLoc{kind: "obj", t: vc.val(bnd)})
+			}
+		}
+		// the callback may change any ghost state of the environment; the callback invariant says what is known after
+		var gnames []string
+		for n, pf := range vc.S.Pure {
+			if pf.State {
+				gnames = append(gnames, n)
+			}
+		}
+		sort.Strings(gnames)
+		touched := map[string]bool{}
+		if fnv, ok := cbClosure.Fn.(*ssa.Function); ok {
+			vc.ghostStatesModifiedBy(fnv, touched, 0)
+		}
+		for _, n := range gnames {
+			gkey := "GS:" + n
+			if !touched[n] && !touched["*"] {
+				continue
+			}
+			if _, ok := vc.comps[gkey]; ok {
+				cbMods = append(cbMods, modLoc{kind: "gstate-all", gkey: gkey})
 			}
 		}
 		if cbSpec != nil {
@@ -399,6 +424,9 @@ func (vc *FuncVC) call(b *ssa.BasicBlock, idx int, ins ssa.Instruction, c *ssa.C
 	}
 	// an error made by errors.New, or by fmt.Errorf with a constant format without %w, wraps nothing:
 	// errors.Is(e, t) holds only for t == e
+	if key == "errors.New" && len(rs) == 1 {
+		vc.assume(reach, Eq(App(SInt, "ityp", rs[0]), IntLit(errorsNewTypeID)))
+	}
 	if (key == "fmt.Errorf" || key == "errors.New") && len(rs) == 1 && len(c.Args) > 0 {
 		if f, ok := constString(c.Args[0]); ok && (key == "errors.New" || !strings.Contains(f, "%w")) {
 			vc.tc.Declare("err_is", "(declare-fun err_is (Iface Iface) Bool)")
@@ -872,3 +900,95 @@ func closureOrdinal(fn *ssa.Function) int {
 var specBuiltins = map[string]bool{"substr": true, "contains": true, "hasprefix": true, "hassuffix": true, "len": true, "cap": true,
 	"old": true, "forall": true, "exists": true, "forallkeys": true, "has": true, "fresh": true, "ite": true, "box": true,
 	"zero": true, "max": true, "min": true, "in_re": true, "typeis": true, "param": true, "result": true, "string": true}
+
+// readOnlyCapture: every use of the captured variable's address inside the closure (and the closures it makes) is a
+// load, possibly through field / index selection; the address is never stored to, passed on or compared.
+func readOnlyCapture(v ssa.Value, depth int) bool {
+	if depth > 6 {
+		return false
+	}
+	refs := v.Referrers()
+	if refs == nil {
+		return false
+	}
+	for _, r := range *refs {
+		switch x := r.(type) {
+		case *ssa.DebugRef:
+		case *ssa.UnOp:
+			if x.Op != token.MUL {
+				return false
+			}
+		case *ssa.FieldAddr:
+			if !readOnlyCapture(x, depth+1) {
+				return false
+			}
+		case *ssa.IndexAddr:
+			if !readOnlyCapture(x, depth+1) {
+				return false
+			}
+		case *ssa.MakeClosure:
+			fnv, ok := x.Fn.(*ssa.Function)
+			if !ok {
+				return false
+			}
+			for i, b := range x.Bindings {
+				if b == v {
+					if i >= len(fnv.FreeVars) || !readOnlyCapture(fnv.FreeVars[i], depth+1) {
+						return false
+					}
+				}
+			}
+		default:
+			return false
+		}
+	}
+	return true
+}
+
+// ghostStatesModifiedBy collects the ghost states named in the modifies clauses of the contracts of everything fn (and
+// the closures it makes) calls; "*" when a callee without a contract could modify any.
+func (vc *FuncVC) ghostStatesModifiedBy(fn *ssa.Function, out map[string]bool, depth int) {
+	if depth > 4 {
+		out["*"] = true
+		return
+	}
+	for _, b := range fn.Blocks {
+		for _, ins := range b.Instrs {
+			if mc, ok := ins.(*ssa.MakeClosure); ok {
+				if f2, ok := mc.Fn.(*ssa.Function); ok {
+					vc.ghostStatesModifiedBy(f2, out, depth+1)
+				}
+			}
+			ci, ok := ins.(ssa.CallInstruction)
+			if !ok {
+				continue
+			}
+			c := ci.Common()
+			if _, isB := c.Value.(*ssa.Builtin); isB {
+				continue
+			}
+			_, con := vc.calleeContract(c)
+			if con == nil {
+				// contract-less callees get the default contract, which leaves ghost state alone
+				continue
+			}
+			for _, m := range con.Modifies {
+				for _, mx := range m.Exprs {
+					ast.Inspect(mx, func(n ast.Node) bool {
+						if call, ok := n.(*ast.CallExpr); ok {
+							if id, ok := call.Fun.(*ast.Ident); ok {
+								if pf := vc.S.Pure[id.Name]; pf != nil && pf.State {
+									out[id.Name] = true
+								}
+								if id.Name == "gstate" {
+									out["*"] = true
+								}
+							}
+						}
+						return true
+					})
+				}
+			}
+		}
+	}
+}
